@@ -498,12 +498,15 @@ def expand(template_path, repo_src_dir, canary=False):
                 op = loop_body_open(mm, mt.start(), 'for')
                 it = body[mt.end():op].strip()
                 mb = re.match(r'(.*)\.\s*by_ref\s*\(\s*\)$', it, re.S)
-                if not mb:
-                    raise ExtractError('%s: for loop over %r is not of the form X.by_ref()' % (fname, it))
                 cl = match_close(mm, op)
                 rw.note('R12', body[mt.start():op].strip())
-                body = (body[:mt.start()] + 'loop { match ' + mb.group(1).strip() + '.next() { Some(' + body[mt.start(1):mt.end(1)] + ') => '
-                        + body[op:cl + 1] + ' None => { break; } } }' + body[cl + 1:])
+                if mb:
+                    body = (body[:mt.start()] + 'loop { match ' + mb.group(1).strip() + '.next() { Some(' + body[mt.start(1):mt.end(1)] + ') => '
+                            + body[op:cl + 1] + ' None => { break; } } }' + body[cl + 1:])
+                else:
+                    # general form: the iterator value lives in a fresh local for the duration of the loop
+                    body = (body[:mt.start()] + '{ let mut iter__ = ' + it + '; loop { match iter__.next() { Some(' + body[mt.start(1):mt.end(1)] + ') => '
+                            + body[op:cl + 1] + ' None => { break; } } } }' + body[cl + 1:])
         if kv.get('ptr_get'):
             # R11: RECV.get()  =>  self.at(RECV): the dereference of a list pointer names the cache whose heap it reads
             while True:
